@@ -111,39 +111,27 @@ Definition race_on (p : skel) (s : cstate) (v : Z) : Prop :=
     accesses a1 v = true /\ accesses a2 v = true /\ (writes a1 v = true \/ writes a2 v = true).
 
 (* ---- the timestamp / sequence-number section (C05) ------------------------------------- *)
-(* the three actions lie, in this order, inside one Lock m .. Unlock m section, and the rest
-   of the skeleton contains none of them *)
-Fixpoint count_act (f : act -> bool) (p : skel) : nat :=
-  match p with [] => O | a :: tl => (if f a then 1 else 0) + count_act f tl end.
-Definition is_clock a := match a with AClock => true | _ => false end.
-Definition is_seqread a := match a with ASeqRead => true | _ => false end.
-Definition is_seqinc a := match a with ASeqInc => true | _ => false end.
+Definition special (a : act) : Z :=
+  match a with AClock => 1 | ASeqRead => 2 | ASeqInc => 3 | _ => 0 end.
 
-Fixpoint section_ok_aux (m : Z) (h : list Z) (p : skel) : bool :=
-  match p with
-  | [] => true
-  | a :: tl => (negb (is_clock a || is_seqread a || is_seqinc a) || memz m h) && section_ok_aux m (held_step h a) tl
-  end.
-
-(* between Lock m and the next Unlock m the special actions appear as clock, read, inc *)
-Fixpoint special_order (p : skel) : list Z :=
+(* for every special action: its kind, whether m is held there, and how many times m has been
+   locked so far (which section instance it lies in) *)
+Fixpoint scan (m : Z) (h : list Z) (sec : nat) (p : skel) : list (Z * bool * nat) :=
   match p with
   | [] => []
-  | AClock :: tl => 1 :: special_order tl
-  | ASeqRead :: tl => 2 :: special_order tl
-  | ASeqInc :: tl => 3 :: special_order tl
-  | ALock _ :: tl => 0 :: special_order tl
-  | AUnlock _ :: tl => 4 :: special_order tl
-  | _ :: tl => special_order tl
+  | a :: tl =>
+      let sec' := match a with ALock x => if x =? m then S sec else sec | _ => sec end in
+      let rest := scan m (held_step h a) sec' tl in
+      if special a =? 0 then rest else (special a, memz m h, sec) :: rest
   end.
 
-Fixpoint zlist_eqb (a b : list Z) : bool :=
-  match a, b with
-  | [], [] => true
-  | x :: a', y :: b' => (x =? y) && zlist_eqb a' b'
-  | _, _ => false
+(* the clock read that defines the timestamp, the read of the sequence number and its
+   increment occur exactly once each, in this order, inside one and the same Lock m ..
+   Unlock m section *)
+Definition section_of (p : skel) (m : Z) : bool :=
+  match scan m [] 0 p with
+  | [(k1, b1, a); (k2, b2, b); (k3, b3, c)] =>
+      (k1 =? 1) && b1 && (k2 =? 2) && b2 && (k3 =? 3) && b3 && Nat.eqb a b && Nat.eqb b c
+  | _ => false
   end.
-
-(* the only synchronisation in the prologue is this one section *)
-Definition same_section_ok (p : skel) : bool :=
-  wb [] p && zlist_eqb (special_order p) [0; 1; 2; 3; 4].
+Definition same_section_ok (p : skel) : bool := wb [] p && existsb (section_of p) (mutexes p).
